@@ -266,12 +266,33 @@ def _replay_idspec(spec, feats, expected_ids):
     return {"inputs": {"id_spec": repr(spec), "features": feats}, "expected": expected_ids, "observed": got, "violates": got != expected_ids}
 
 
+_PATTERNS = ("distinct", "equal", "first-two-equal")
+
+
+def _values(k, n, pattern):
+    if pattern == "equal":
+        return ["%s_v" % k] * n
+    if pattern == "first-two-equal":
+        return (["%s_v" % k] * 2 + ["%s_v%d" % (k, i) for i in range(2, n)])[:n]
+    return ["%s_v%d" % (k, i) for i in range(n)]
+
+
 def _replay_lens(order, meta, m):
+    """the model fixes the list lengths; element values are tried in the patterns distinct / all equal /
+    first two equal (native search in the neighbourhood of the model)"""
+    last = None
+    for pattern in _PATTERNS:
+        last = _replay_lens1(order, meta, m, pattern)
+        if last.get("violates"):
+            return last
+    return _replay_lens1(order, meta, m, "distinct")
+
+
+def _replay_lens1(order, meta, m, pattern):
     attrs = {}
     for k in meta:
         n = min(max(int(m.get("f.%s.len" % k, 0)), 0), 3)
-        attrs[k] = ["%s_v%d" % (k, i) for i in range(n)]
-    attrs = {k: v for k, v in attrs.items()}
+        attrs[k] = _values(k, n, pattern)
     exp = None
     for k in order:
         if k in attrs and len(attrs[k]) > 1:
@@ -294,13 +315,21 @@ def _replay_lens(order, meta, m):
 
 
 def _replay_dict(m):
+    for pattern in _PATTERNS:
+        r = _replay_dict1(m, pattern)
+        if r.get("violates"):
+            return r
+    return _replay_dict1(m, "distinct")
+
+
+def _replay_dict1(m, pattern):
     ft = m.get("f.featuretype", "x")
     if ft not in ("gene", "transcript"):
         ft = "other"
     attrs = {}
     for k in ("gene_id", "transcript_id", "Name"):
         n = min(max(int(m.get("f.%s.len" % k, 0)), 0), 3)
-        attrs[k] = ["%s_v%d" % (k, i) for i in range(n)]
+        attrs[k] = _values(k, n, pattern)
     spec = {"gene": "gene_id", "transcript": ["transcript_id", "Name"]}
     order = {"gene": ["gene_id"], "transcript": ["transcript_id", "Name"]}.get(ft, [])
     exp = None
@@ -471,6 +500,15 @@ def unit_bounded(U):
     except ValueError:
         pass
     cases += 1
+    for spec, attrs in (("ID", {"ID": ["a", "a"]}), (["ID", "Name"], {"Name": ["n", "n", "n"]}), ({"gene": "gene_id"}, {"gene_id": ["g", "g"]}), (["ID", "Name"], {"ID": ["a", "a"], "Name": ["n"]})):
+        cases += 1
+        try:
+            gffutils.create_db([_mk("c", "gene", attrs)], ":memory:", id_spec=spec)
+            fails.append({"case": {"id_spec": repr(spec), "attributes": attrs}, "expected": "ValueError (several values, even if equal)", "observed": "accepted"})
+        except ValueError:
+            pass
+        except Exception as e:
+            fails.append({"case": {"id_spec": repr(spec), "attributes": attrs}, "expected": "ValueError", "observed": repr(e)})
     U.bounded_result("C04.bounded.files", "keys in input order == id_spec keys / '<featuretype>_<n>' numbering; unique; db[key] exact; absent raises",
                      "%d generated feature lists (<= 8 features, id_spec ['ID','Name'])" % n, cases, fails)
 
